@@ -103,15 +103,15 @@ def setBody : List Nat → List Nat
 def tokCls : List Nat → Option (Cls × List Nat)
   | [] => none
   | c :: r =>
-    if c = 0 ∨ c = 40 ∨ c = 41 then none
+    if c = 40 ∨ c = 41 then none
     else if c = 37 then
       match r with
       | [] => none
-      | cl :: r' => if cl = 0 ∨ isDigit cl ∨ cl = 98 ∨ cl = 102 then none else some (.esc cl, r')
+      | cl :: r' => if isDigit cl ∨ cl = 98 ∨ cl = 102 then none else some (.esc cl, r')
     else if c = 91 then
       match classEnd (c :: r) with
       | .ok (.set content, rest) =>
-        if setOK (setBody content) ∧ ¬ content.contains 0 then some (.set content, rest) else none
+        if setOK (setBody content) then some (.set content, rest) else none
       | _ => none
     else if c = 46 then some (.any, r)
     else some (.lit c, r)
@@ -136,9 +136,14 @@ def tokItems : Nat → List Nat → Option (List Item × Bool)
       | none => none
       | some (its, t) => some (⟨cls, (tokQ r1).1⟩ :: its, t)
 
-/-- **the fragment**: a decidable predicate on pattern byte strings -/
-def inFragment (pat : List Nat) : Bool :=
+/-- the fragment, bytes unrestricted (a pattern may contain NUL: the Spec then reads it byte-transparently, as lstrlib does
+    from 5.2 on; lstrlib 5.1 reads a pattern as a C string and would stop at the NUL — the 5.1 manual excludes such
+    patterns: "a pattern cannot contain embedded zeros") -/
+def inFragment0 (pat : List Nat) : Bool :=
   (tokItems ((splitAnchor pat).2.length + 1) (splitAnchor pat).2).isSome
+
+/-- **the fragment**: a decidable predicate on pattern byte strings (no NUL: the domain of the 5.1 manual) -/
+def inFragment (pat : List Nat) : Bool := !pat.contains 0 && inFragment0 pat
 
 /-! ### the program the Model compiles for a tokenized pattern -/
 def Item.block (it : Item) : Block :=
